@@ -156,6 +156,15 @@ func init() {
 						break
 					}
 				}
+				for _, v := range eolVariants(in) {
+					vb, _ := cm.Parse(clone(v))
+					for _, rb := range vb {
+						if _, ok := checkCover(x, v, rb); !ok {
+							break
+						}
+					}
+					x.Count("inputs_also_as_crlf_or_cr")
+				}
 				if nontrivial {
 					x.Nontrivial()
 				}
@@ -251,6 +260,15 @@ func init() {
 					if checkGrammar(x, in, rb, "stream", &nt) {
 						break
 					}
+				}
+				for _, v := range eolVariants(in) {
+					vb, _ := cm.Parse(clone(v))
+					for _, rb := range vb {
+						if checkGrammar(x, v, rb, "parse/eol-variant", &nt) {
+							break
+						}
+					}
+					x.Count("inputs_also_as_crlf_or_cr")
 				}
 				if nt {
 					x.Nontrivial()
